@@ -924,7 +924,7 @@ func ruleUnitEvaluators(r *Run) {
 			kind := ""
 			for _, a := range call.Call.Args {
 				if cv, ok := constOf(a); ok && lexT != nil && types.Identical(a.Type(), lexT) {
-					for _, k := range []string{"Duration", "Bytes"} {
+					for _, k := range []string{"Duration", "Bytes", "Number"} {
 						if kc, ok := tconsts[k]; ok && constant.Compare(cv, token.EQL, kc) {
 							kind = k
 						}
@@ -963,6 +963,15 @@ func ruleUnitEvaluators(r *Run) {
 					continue
 				}
 				nSites[kind]++
+				if kind == "Number" {
+					// a number token is a decimal floating-point literal (or a decimal count): no base
+					// prefixes, no octal reading of a leading zero
+					if pk, nm := calleePkgName(ev); pk != "strconv" || (nm != "ParseFloat" && nm != "Atoi") {
+						bad = true
+						o.Fail(r.pos(ev.Pos()), "%s evaluates a Number token with %s: numbers are read with strconv.ParseFloat (parameters with strconv.Atoi), nothing that interprets base prefixes or leading zeros", shortFuncName(fn), shortFuncName(ec))
+					}
+					continue
+				}
 				if !valid[funcName(ec)] {
 					bad = true
 					o.Fail(r.pos(ev.Pos()), "%s evaluates a %s token with %s, which is not one of the functions the lexer validates unit tokens with (%v)", shortFuncName(fn), kind, shortFuncName(ec), sortedKeysBool(valid))
@@ -970,7 +979,7 @@ func ruleUnitEvaluators(r *Run) {
 			}
 		}
 	}
-	for _, k := range []string{"Duration", "Bytes"} {
+	for _, k := range []string{"Duration", "Bytes", "Number"} {
 		if nSites[k] == 0 {
 			bad = true
 			o.Fail(r.pos(su.Pos()), "no place found where the parser evaluates the text of a %s token", k)
